@@ -56,6 +56,8 @@ def header_extra(spec):
         ex.append('-%d' % w)
     if spec.get('undeclared'):
         ex.append('[undeclared %s]' % ' '.join(str(u) for u in spec['undeclared']))
+    if spec.get('tie_list'):
+        ex.append('[tie %s]' % ' '.join(str(c) for c in spec['tie_list']))
     if spec.get('droop_line'):
         ex.append('[droop %s]' % spec['droop_line'])
     return ' '.join(ex)
@@ -96,6 +98,10 @@ class Universe:
         self.ms = [z3.Int('m%d' % i) for i in range(len(self.lines))]
         self.symtie = bool(spec.get('symtie'))
         self.ts = [z3.Int('tie%d' % i) for i in range(1, self.n + 1)] if self.symtie else None
+        self.declared = None
+        if spec.get('tie_list'):
+            # a concrete [tie ...] option that goes through the real reader; the declared ranks are kept for the monitors
+            self.declared = [spec['tie_list'].index(c) + 1 for c in range(1, self.n + 1)]
         self.extra = header_extra(spec)
         self.names = spec.get('names')
         # which lines survive the reader (withdrawn stripped)?  Probe once, concretely.
